@@ -18,7 +18,7 @@ for prop in sys.argv[2:]:
     n = ok = 0
     # forget earlier entries of the jobs that were re-run
     names = set(r['name'] for r in res)
-    scope['outside_reach'] = {k: v for k, v in scope['outside_reach'].items() if k.split('::')[0] not in names}
+    # entries of earlier calibration runs are kept (union): z3 timeouts make the discharged set vary slightly from run to run
     for r in res:
         if r['status'] != 'ok':
             print('JOB FAILED', r['name'], r.get('error', '')[-400:]); continue
@@ -28,7 +28,7 @@ for prop in sys.argv[2:]:
                 ok += 1; continue
             w = x.get('native_worst')
             oid = '%s::%s' % (r['name'], x['name'])
-            if w is not None and w['dev'] > 1e-9:
+            if w is not None and w['dev'] > r['opts'].get('tol', 1e-9):
                 print('NATIVE DEVIATION (not put in scope):', oid, w)
                 continue
             why = 'z3 does not discharge the output relation within cone depth/timeouts'
